@@ -82,6 +82,10 @@ let doline line =
   | "countto" -> string_of_int (int_of_nat (bitvCountTo c (r 1) (nat_of_int (i 2))))
   | "unique" -> string_of_int (int_of_z (bitvUnique1IndexInRange c (r 1) (nat_of_int (i 2)) (nat_of_int (i 3))))
   | "toint" -> string_of_int (int_of_z (bitvToInt c (r 1)))
+  | "tostring" ->
+      let txt l = String.concat "" (List.map (function PLbr -> "[" | PRbr -> "]" | PZero -> "0" | POne -> "1" | PSpace -> " ") l) in
+      let (pt, cc) = bitvPrint c (r 1) in
+      txt (bitvToString c (r 1)) ^ "|" ^ txt pt ^ "|" ^ string_of_int (int_of_nat cc)
   | "fromint" ->
       reg.(i 1) <- bitvFromInt c (zeros (int_of_nat c.nwords)) (z_of_int (i 2));
       bitstr (bits c (r 1))
